@@ -212,5 +212,27 @@ _TECH5 = {
 }
 for _k, _v in _TECH5.items():
     CLAIMS[_k]['technique'] = CLAIMS[_k]['technique'] + _v
+# rules added after round 4 of the adversarial changes (DESIGN.md section 9)
+ADDED6 = {
+    'C01': ' Round 4: INDEX-SENTINEL (the narrow slot indices of the Hashtable that holds a Message\'s fields never have to represent their own sentinel).',
+    'C02': ' Round 4: budget-underflow (a DataUnflattener budget `length - constant` needs length >= constant where the reader is built) and C-INIT (a C struct fresh from malloc has every field written before it is handed out).',
+    'C03': ' Round 4: ACCUMULATE (a pending-Message member that collects the chunks decoded from one read is re-created only where it was found NULL); CODEC-STEP also requires the converse (zlib label only where Deflate() returned a buffer).',
+    'C04': ' Round 4: the literal-lookup fast path of the traversal, per call site: the clause is unescaped exactly once before GetChild(), and the accumulator is empty when the splitting of an entry begins (shared with C05 and C06).',
+    'C05': ' Round 4: the per-call-site unescape count and accumulator-fresh obligations (shared), ESCAPE-PARITY of RemoveEscapeChars (C15\'s scanner rule, run here for the function routing depends on), and DEFAULT-ROUTE replace (UpdateDefaultMessageRoute clears before it refills).',
+    'C06': ' Round 4: the traversal\'s literal lookup names the nodes the patterns match (shared clause-lookup obligations): marks are placed by matching and removed by traversal.',
+    'C07': ' Round 4: UNDERFLOW (a subtraction of two unsigned parameters is reached only where the two were compared), over every function reachable from the dispatcher.',
+    'C08': ' Round 4: the frame\'s encoding word describes its body (CODEC-STEP, shared with C03) and the mini field list\'s unlink resets the field\'s own links.',
+    'C11': ' Round 4: FD-VALID (descriptor 0 is valid), StartInternalThread signals only after the sockets exist, and the new thread announces replies queued before it started.',
+    'C12': ' Round 4: SOURCE-AFTER-READ (the packet\'s source address is asked for after the packet was read) and BUFFER-FREE (PacketizedProxyDataIO refills its packet buffer only where HasBufferedOutput() was found false).',
+    'C14': ' Round 4: PAIRED-LENGTH (in Matches() a buffer local is indexed from the length local obtained together with it).',
+    'C15': ' Round 4: NULL-SEGMENT (SegmentedStringMatcher::IsPatternUnique answers false for a match-anything segment).',
+    'C16': ' Round 4: BAD-INDEX (a logical index is turned into a slot only under index < item count).',
+    'C17': ' Round 4: STALE-PTR (no character pointer saved before a contents-keeping buffer move is used after it).',
+    'C18': ' Round 4: wake-coverage (NotifySomeWaitingThreads returns without a notification only when no reader and no writer is waiting, by path enumeration).',
+    'C19': ' Round 4: Shutdown empties every per-client table; publish-before-signal in ThreadPoolThread::SendMessagesToInternalThread.',
+    'C20': ' Round 4: invalidate-always (InvalidatePulseTime clears the valid flag whenever it was set).',
+}
+for _k, _v in ADDED6.items():
+    CLAIMS[_k]['text'] = CLAIMS[_k]['text'] + _v
 for _k in CLAIMS:
-    CLAIMS[_k]['text'] = CLAIMS[_k]['text'] + ' Robustness: every condition is read independently of its spelling; the thorough tier re-runs the rules on the facts with all comparisons exchanged and all negations respelled and requires the same verdict, and requires silence on the behaviour-preserving patches under equivalents/.'
+    CLAIMS[_k]['text'] = CLAIMS[_k]['text'] + ' Robustness: every condition is read independently of its spelling; the thorough tier re-runs the rules on the facts with all comparisons exchanged and all negations respelled and requires the same verdict, and requires silence on the 255 behaviour-preserving patches under equivalents/.'
